@@ -111,6 +111,17 @@ Section Havoc.
         end
     | SReturn a =>
         Some {| h_norm := []; h_bad := existsb (fun s => existsb anil (hvals s a)) S |}
+    | SReturn2 a _ =>
+        Some {| h_norm := []; h_bad := existsb (fun s => existsb anil (hvals s a)) S |}
+    | SCall2 _ x xe _ _ =>
+        let S1 := match x with
+                  | Some y => fold_right (st_add vars) [] (flat_map (fun s => assign_all vars s y [VNil; VPtr None]) S)
+                  | None => S
+                  end in
+        Some {| h_norm := match xe with
+                          | Some y => fold_right (st_add vars) [] (flat_map (fun s => assign_all vars s y [VNil; VPtr None]) S1)
+                          | None => S1
+                          end; h_bad := false |}
     | SConv x _ _ =>
         Some {| h_norm := fold_right (st_add vars) [] (flat_map (fun s => assign_all vars s x [VPtr None]) S); h_bad := false |}
     | SCallI _ _ x xi _ _ _ =>
@@ -146,6 +157,8 @@ Fixpoint lstmt (st : stmt) : list nat :=
   | SWhile c b => lcond c ++ lstmt b
   | SReturn a => latom a
   | SConv x _ _ => lvar x
+  | SReturn2 a e => latom a ++ latom e
+  | SCall2 _ x xe _ args => match x with Some y => lvar y | None => [] end ++ match xe with Some y => lvar y | None => [] end ++ flat_map latom args
   | SCallI _ _ x xi _ _ args => match x with Some y => lvar y | None => [] end ++ lvar xi ++ flat_map latom args
   end.
 
